@@ -1,6 +1,6 @@
 (* Run/GeomOps.v -- flat dispatcher over Geom/Dim2.v (numbering of harness/src/geomops.rs). *)
 From Coq Require Import ZArith List Floats Bool.
-From SCAD Require Import Base.Num Base.NumF Base.Vec Geom.Dim2 Run.MathOps.
+From SCAD Require Import Base.Num Base.NumF Base.Vec Geom.Dim2 Geom.Tri Run.MathOps.
 Import ListNotations.
 
 Section GOps.
@@ -53,6 +53,10 @@ Section GOps.
         let '(ch1, k) := chain3_adds nadds a 15 ch0 in
         let ch2 := if bz a 1 then chain3_close ch1 (a0 a k) (g3 a (k + 1)) (a0 a (k + 4)) (zi a (k + 5)) else ch1 in
         S (nofZ (Z.of_nat (length (dh_curves ch2))) :: flat_map ocurve3 (dh_curves ch2) ++ ol3 (chain3_points ch2))
+    | 300 => option_map (map nofZ) (triangulate2d (gl2 a))
+    | 301 => option_map (map nofZ) (triangulate2d_rev (gl2 a))
+    | 302 => option_map (map nofZ) (triangulate3d (gl3 (skipn 3 a)) (g3 a 0))
+    | 303 => option_map (map nofZ) (triangulate3d_rev (gl3 (skipn 3 a)) (g3 a 0))
     | _ => None
     end%Z.
 End GOps.
